@@ -1,0 +1,41 @@
+//go:build verif
+
+// Contracts for the verification engine in /verif (govc). This file contains comments only:
+// it adds no code with or without the build tag "verif". Syntax: /verif/DESIGN.md section 3.2.
+
+package param
+
+// ---- values containing a separator are rejected, not encoded ambiguously (C21) --------------------
+//@ func containsSep
+//@   call Contains#1 assert [item] $0 == val && $1 == itemSep
+//@   call Contains#2 assert [kv] $0 == val && $1 == kvSep
+//@   call Contains#1 bind c1 = $ret0
+//@   call Contains#2 bind c2 = $ret0
+//@   ensures [either] result == (c1_set && c1 || c2_set && c2)
+
+//@ func appendToParamString
+//@   call containsSep#1 assert [of-value] $val == paramVal
+//@   call containsSep#1 bind cs = $ret0
+//@   ensures [empty-skipped] paramVal == "" ==> ret0 == paramString && ret1 == nil
+//@   ensures [rejected] cs_set && cs ==> ret1 != nil && ret0 == paramString
+//@   ensures [encoded] ret1 == nil && paramVal != "" ==> ret0 == paramString + paramName + kvSep + paramVal + itemSep
+//@   ensures [checked] ret1 == nil && paramVal != "" ==> cs_set && !cs
+
+// ---- separators are chosen outside every character in use (C21) -----------------------------------
+//@ func randCharNotInString
+//@   loop 1 invariant [from-zero] addRune >= 48
+//@   loop 2 invariant [idx] rangeindex#2 < len(runes) && rangeindex#2 >= 0 - 1
+//@   loop 2 invariant [scan] !runeSeen ==> (forall j int :: 0 <= j && j <= rangeindex#2 ==> runes[j] != addRune)
+//@   call WriteRune#1 assert [fresh-rune] $1 == addRune && (forall j int :: 0 <= j && j < len(runes) ==> runes[j] != addRune)
+//@   call WriteRune#1 assert [not-dot] addRune != 46
+
+//@ func setSeparators
+//@   call fieldsAsStringValues#1 assert [all-values] $0 == paramsStruct
+//@   call mergeAndUniqifyRunes#1 bind inv0 = $ret0
+//@   call randCharNotInString#1 assert [avoid-values] inv0_set && $str == inv0
+//@   call randCharNotInString#2 assert [avoid-values-and-item-sep] inv0_set && $str == inv0 + itemSep
+
+//@ func FUSEParamsToEnvVars
+//@   call setSeparators#1 assert [whole-struct] $0 == iface(fuseParams)
+//@ func PGParamsToEnvVars
+//@   call setSeparators#1 assert [whole-struct] $0 == iface(pgParams)
